@@ -609,6 +609,25 @@ func genCert(r *Rng, pub any, variant int) []byte {
 	return must(x509.CreateCertificate(NewRng(r.U64()), t, t, pub, signer))
 }
 
+// genCertWithText: a certificate that carries text inside (a Netscape comment extension, IA5String, and
+// an organisation name, UTF8String) - text that is itself a complete PEM block or a line of an SSH key
+func genCertWithText(r *Rng, pub any, text string) []byte {
+	signer := ed25519.NewKeyFromSeed(r.Bytes(32))
+	nb := time.Date(2024, 2, 3, 4, 5, 6, 0, time.UTC)
+	comment, err := asn1.MarshalWithParams(text, "ia5")
+	if err != nil {
+		panic(err)
+	}
+	t := &x509.Certificate{
+		SerialNumber: big.NewInt(int64(1 + r.Intn(1<<30))),
+		Subject:      pkix.Name{CommonName: "text.example.org", Organization: []string{text}},
+		NotBefore:    nb, NotAfter: nb.AddDate(1, 0, 0),
+		KeyUsage:        x509.KeyUsageDigitalSignature,
+		ExtraExtensions: []pkix.Extension{{Id: asn1.ObjectIdentifier{2, 16, 840, 1, 113730, 1, 13}, Value: comment}},
+	}
+	return must(x509.CreateCertificate(NewRng(r.U64()), t, t, pub, signer))
+}
+
 func c05Objects(c *Ctx) []c05Obj {
 	r := c.R
 	var objs []c05Obj
@@ -683,6 +702,14 @@ func c05Objects(c *Ctx) []c05Obj {
 	add("pkix", "ed25519", spki(oid.Ed25519, asn1.RawValue{}, edPub))
 	add("pkcs8", "ed25519", pkcs8(oid.Ed25519, asn1.RawValue{}, must(asn1.Marshal(edSeed))))
 	add("cert", "ed25519", genCert(r, edPub, 0))
+	{
+		spkiDer := must(x509.MarshalPKIXPublicKey(edPub))
+		inner := string(pem.EncodeToMemory(&pem.Block{Type: "PUBLIC KEY", Bytes: spkiDer}))
+		add("cert", "embedded-pem-public-key", genCertWithText(r, edPub, inner))
+		add("cert", "embedded-pem-after-text", genCertWithText(r, edPub, "see below\n"+inner))
+		add("cert", "embedded-pem-unknown-label", genCertWithText(r, edPub, "-----BEGIN DATA-----\nAAECAwQF\n-----END DATA-----\n"))
+		add("cert", "embedded-ssh-line", genCertWithText(r, edPub, "ssh-ed25519 AAAAC3NzaC1lZDI1NTE5AAAAIOiCmBLDmWHf8YkXzvUCr2nXUKgMIVcqPpvTWtzH0NfS user@host\n"))
+	}
 	xPriv, err := ecdh.X25519().NewPrivateKey(r.Bytes(32))
 	if err == nil {
 		add("pkix", "x25519", spki(oid.X25519, asn1.RawValue{}, xPriv.PublicKey().Bytes()))
